@@ -236,7 +236,7 @@ def expected(func, plan, trimmed=True):
     """Reference model for one call -> (RECV line, OBS line)."""
     combo, ex, omit = plan
     nargs = len(func.args)
-    recv = "RECV " + func.name
+    recv = "RECV " + func.tag
     obs = []
     for i, ((atom, n), v) in enumerate(zip(func.args, combo)):
         if omit and i >= nargs - omit:
@@ -250,7 +250,7 @@ def expected(func, plan, trimmed=True):
     for (atom, n), v in list(zip(func.args, combo))[: nargs - omit if omit else nargs]:
         obs += atom.observe(v)
     obs = func.res.observe(ex) + obs
-    return recv, "OBS " + func.name + "".join(" " + o for o in obs)
+    return recv, "OBS " + func.tag + "".join(" " + o for o in obs)
 
 
 def driver(lib, plans_by_func, module=None):
@@ -264,13 +264,17 @@ def driver(lib, plans_by_func, module=None):
         out += ["  zz_obj11 = cls(11_C_INT)", "  zz_obj22 = cls(22_C_INT)"]
     exp_recv, exp_obs = [], []
     for f in lib.funcs:
-        for plan in plans_by_func[f.name]:
+        # fortran_generic: the same call is made once per offered type of the first argument
+        variants = [(plan, t) for plan in plans_by_func[f.tag] for t in (f.generic or [None])]
+        for plan, gtype in variants:
             combo, ex, omit = plan
             decls, setup, actual, post = [], [], [], []
             nargs = len(f.args)
             for i, ((atom, n), v) in enumerate(zip(f.args, combo)):
                 if omit and i >= nargs - omit:
                     continue
+                if gtype is not None and i == 0:
+                    atom = A.Val(gtype)
                 d, s, a, p = arg_code(atom, n, v)
                 decls += d
                 setup += s
@@ -278,12 +282,12 @@ def driver(lib, plans_by_func, module=None):
                 post += p
             if f.res.extra_params:
                 actual.append("%d_C_INT" % ex)
-            call = "%s(%s)" % (f.name.lower(), ", ".join(actual))
+            call = "%s(%s)" % (getattr(f, "fcall", f.name).lower(), ", ".join(actual))
             rd, rs_ = res_code(f.res, call, ex)
             out.append("  block")
             out += ["    " + x for x in decls + rd]
             out += ["    " + x for x in setup]
-            out.append("    call obs_begin('%s')" % f.name)
+            out.append("    call obs_begin('%s')" % f.tag)
             # the call happens first, its observations are printed after it
             out += ["    " + x for x in rs_[:1]]
             out += ["    " + x for x in rs_[1:]]
